@@ -3,7 +3,7 @@ before the closures are used; fenv programs."""
 import itertools, random
 from luagen import Prog
 
-WHERES = ["block", "while", "repeat", "repeatcond", "fornum", "forin", "function"]
+WHERES = ["block", "while", "repeat", "repeatcond", "fornum", "forin", "function", "toplevel"]
 EXITS = ["fall", "break", "goto_out", "goto_cont", "return", "tailcall", "pcall_error", "xpcall_error", "xpcall_badhandler",
          "pcall_rterror", "co_yield", "co_death", "co_error", "co_rterror", "nested_pcall"]
 CAPTURES = ["get", "incget", "nested", "modafter"]
@@ -96,7 +96,14 @@ def clos_case(where, exit_, cap, nest="body", reg0=False):
         return stmts[:keep_first] + [wrapped] + tail
     # ---- the scope construct
     body = []
-    if where == "block":
+    if where == "toplevel":
+        # the captured local belongs to the scope function's own body: only the function's end (return, error, the
+        # death of the coroutine running it) closes it
+        ex = exit_stmt()
+        if exit_ in ("return", "tailcall"):
+            ex = [p.do(p.block(ex))]          # a return ends its block: the statements after it follow the do ... end
+        body += [p.local(["v"], [p.num(10)])] + capture_stmts(p, cap, "v") + ex
+    elif where == "block":
         body.append(p.do(p.block([p.local(["v"], [p.num(10)])] + capture_stmts(p, cap, "v") + exit_stmt())))
     elif where == "while":
         inner = [p.assign([p.id("i")], [p.bin("+", p.id("i"), p.num(1))]), p.local(["v"], [p.bin("*", p.id("i"), p.num(10))])] \
